@@ -261,5 +261,10 @@ TECHNIQUE = ("Coq proofs about an executable abstract application (ports with ki
              "enabling toggles; save = lines of the live ports that differ from their selected default; load = fold of "
              "the callbacks over the code-shaped dependency sort) + end-to-end differential correspondence against "
              "rtosc::save_to_file / load_from_file on generated applications under ASan")
-LEVEL_TEXT = "see notes/C12.md"
-LEVEL_NOTE = "composition theorem over the statements of C04/C09/C10/C14/C16/C13 as Section hypotheses; the real pipeline is tied to the model by the correspondence run"
+LEVEL_TEXT = ("For every abstract application and state: a line is saved exactly for the live ports whose value differs from the "
+              "default the state selects (C12_minimal); a default-initialised instance saves nothing (C12_untouched); wrong header, "
+              "other application name, unparsable text, unmatched line give a negative result with the code's offset arithmetic "
+              "(C12_reject_*); a stored value is a fixed point of its callback (C12_stored_value_is_a_fixed_point). The round trip "
+              "itself (C12_roundtrip) is NOT proved; it is decided end to end by the correspondence run on every check.")
+LEVEL_NOTE = ("abstract application (printing/scanning, walk, dispatch are data of the model: C10/C09/C04); the real pipeline is tied to the "
+              "model by the correspondence run; see notes/C12.md for the open round-trip theorem and the hypotheses it would import")
